@@ -259,11 +259,16 @@ class St:
         return St(frozenset((k, c) for k, c in self.vals if not (isinstance(k, tuple) and k[0] == "call")), self.errno, self.user)
 
 
+def vkey(name, did):
+    """variables are keyed by name and declaration id (nested scopes re-use names)"""
+    return "%s#%s" % (name, did)
+
+
 def value_key(fn, nid):
     """key under which the sign class of expression nid is tracked"""
     n = fn.sn(nid)
     if n["k"] == "ref" and n["dk"] in ("local", "param"):
-        return n["name"]
+        return vkey(n["name"], n.get("did"))
     if n["k"] == "call":
         return ("call", n["id"])
     if n["k"] == "bin" and n["op"] == "=":
@@ -453,7 +458,7 @@ def _elem(rule, fn, st, nid, depth, budget, stack, exits, top):
                 for p, a in zip(d.params, n["args"]):
                     c = _class_of(fn, st, a)
                     if c is not None:
-                        vals.add((p["name"], c))
+                        vals.add((vkey(p["name"], p.get("did")), c))
                 s_call = St(frozenset(vals), st.errno, st.user)
                 sub = _explore(rule, d, s_call, depth + 1, False, budget, stack + (fn,))
                 for s_out, rc in sub:
@@ -474,9 +479,10 @@ def _elem(rule, fn, st, nid, depth, budget, stack, exits, top):
             st = st.with_errno(("assigned", True, ("eq", kk) if kk is not None and n["op"] == "=" else None))
         elif ln["k"] == "ref" and ln["dk"] in ("local", "param"):
             c = _class_of(fn, st, n["r"]) if n["op"] == "=" else None
-            st = st.set(ln["name"], c)
+            vk = vkey(ln["name"], ln.get("did"))
+            st = st.set(vk, c)
             rk = value_key(fn, n["r"]) if n["op"] == "=" else None
-            st = st.set(("src", ln["name"]), rk if isinstance(rk, tuple) else None)
+            st = st.set(("src", vk), rk if isinstance(rk, tuple) else None)
         if n["op"] == "=" and fn.show(n["r"]) == "errno":
             u0 = rule.on_errno_use(fn, st, nid, "read")
             if u0 is not None:
@@ -490,7 +496,7 @@ def _elem(rule, fn, st, nid, depth, budget, stack, exits, top):
     if k == "un" and n["op"] in ("++", "--", "post++", "post--"):
         ln = fn.sn(n["sub"])
         if ln["k"] == "ref":
-            st = st.set(ln["name"], None)
+            st = st.set(vkey(ln["name"], ln.get("did")), None)
         u = rule.on_store(fn, st, nid, n["sub"], None, n["op"])
         if u is C.DEAD:
             return []
@@ -500,9 +506,10 @@ def _elem(rule, fn, st, nid, depth, budget, stack, exits, top):
     if k == "decl":
         for v in n["vars"]:
             c = _class_of(fn, st, v["init"]) if v.get("init") is not None else None
-            st = st.set(v["name"], c)
+            vk = vkey(v["name"], v.get("did"))
+            st = st.set(vk, c)
             rk = value_key(fn, v["init"]) if v.get("init") is not None else None
-            st = st.set(("src", v["name"]), rk if isinstance(rk, tuple) else None)
+            st = st.set(("src", vk), rk if isinstance(rk, tuple) else None)
             if v.get("init") is not None and fn.show(v["init"]) == "errno":
                 u0 = rule.on_errno_use(fn, st, nid, "read")
                 if u0 is not None:
